@@ -69,6 +69,25 @@ CHECKS.update({
     ),
 })
 
+CHECKS.update({
+    "C14": dict(
+        engine="E5 pure-function PBT",
+        category="exploration",
+        text="Every provided Buf/BufMut/BufSlice/BufMutSlice implementation and wrapper (incl. arrays/tuples of arity 1..8 with mixed element types and nested LimitedBuf) over generated contents, capacities, fill levels, n and boundary-heavy limits in the whole usize range; laws checked against a model that knows each buffer's allocation bounds.",
+        design_ref="5/C14",
+        technique="property-based testing of trait laws against an allocation-bounds model (proptest)",
+        note="No ring involved. Trusted: the harness' own bookkeeping of allocation bounds; SkipBuf/ReadNBuf/ReadBuf are covered by C10/C15.",
+    ),
+    "C16": dict(
+        engine="E5 pure-function PBT",
+        category="exploration",
+        text="All IPv4/IPv6/either-family addresses and Unix pathname/abstract/unnamed addresses: into_storage + as_ptr -> model of what Linux keeps and which length it reports (with and without the trailing NUL, and length 0 for no address) -> init must return the original; pointer/length pairs must stay inside the storage and have the family's structure size for IP.",
+        design_ref="5/C16",
+        technique="round-trip property-based testing through a model of the kernel's address-length rules",
+        note="Trusted: the model of the Linux address-length rules (unix(7), af_unix.c), cross-checked on real sockets by the C13/C16b differential where registered.",
+    ),
+})
+
 NOT_YET = {
 }
 
